@@ -25,7 +25,7 @@ func init() {
 			if tier == "quick" {
 				return 120
 			}
-			return 1500
+			return 4000
 		},
 		Batch:            10,
 		Workers:          8,
